@@ -6,6 +6,8 @@ A *tape* is a sequence of files (name, kind, size); kinds: D data file (PRINT#),
 Every tape is written through BASIC statements by one Session on a fresh CAS: or WAV: image, the
 session is closed, and *new* Sessions read it back:
     order     every file by name, first to last, in one session (nothing to skip)
+    wrap      a later file first, then an earlier one in the same session: Device Timeout (the search
+              runs off the end and the tape is rewound) is accepted once, then the file must be found
     skip-to-t for every t > 0, a fresh session asks for file t first (files before it are skipped)
     nameless  a fresh session does LOAD "CAS1:" (thorough tier)
 Oracle (reference model = the list of files): the "Found." message names the file with the type it
@@ -218,7 +220,7 @@ def check_messages(part, case, tape, pos, t, out, what):
     return False
 
 
-def read_file(s, part, case, tape, pos, t, what):
+def read_file(s, part, case, tape, pos, t, what, wrapped=False):
     """Open/load file t by name with the tape at position pos; compare.  Returns new position or None
     when reading cannot sensibly continue."""
     kind, n = tape[t]
@@ -232,14 +234,23 @@ def read_file(s, part, case, tape, pos, t, what):
         part.outcome('%s:%s:%s' % (what, kind, key.split('/')[0] + '-' + key.split('/')[-1]))
         part.violation(key, '%s: tape %r file %d (%s, size %d): %s' % (what, tape, t, kind, n, msg), case)
 
-    if kind == 'D':
-        r = H.run(s, fast.TOP + b'OPEN "CAS1:%s" FOR INPUT AS 1' % name)
-    elif kind in 'ABP':
-        r = H.run(s, fast.TOP + b'LOAD "CAS1:%s"' % name)
-    else:
+    def find():
+        if kind == 'D':
+            return H.run(s, fast.TOP + b'OPEN "CAS1:%s" FOR INPUT AS 1' % name)
+        elif kind in 'ABP':
+            return H.run(s, fast.TOP + b'LOAD "CAS1:%s"' % name)
         # clear the target area first so that stale bytes cannot pass for loaded ones
         H.run(s, fast.TOP + b'DEF SEG=&HB800:FOR I%%=0 TO %d:POKE 8192+I%%,255:NEXT' % (n + 3))
-        r = H.run(s, fast.TOP + b'DEF SEG=&HB800:BLOAD "CAS1:%s",8192' % name)
+        return H.run(s, fast.TOP + b'DEF SEG=&HB800:BLOAD "CAS1:%s",8192' % name)
+    r = find()
+    if wrapped and r.exc is None and r.err == 24:
+        # the file lies behind the head: the search ran off the end of the tape, which is then
+        # rewound (Device Timeout); asked again, the file must be found from the start of the tape
+        part.outcome('%s:%s:timeout-then-retry' % (what, kind))
+        H.run(s, b'CLOSE')
+        pos = 0
+        wrapped = False
+        r = find()
     if r.exc is not None:
         fail('read/%s/host-exception/%s' % (kind, H.exc_key(r.exc)), 'raised %r' % (r.exc,))
         return None
@@ -248,7 +259,10 @@ def read_file(s, part, case, tape, pos, t, what):
              'not found: BASIC error %s, output %r' % (r.err, r.out[-120:]))
         H.run(s, b'CLOSE')
         return None
-    check_messages(part, case, tape, pos, t, r.out, what)
+    if wrapped:
+        part.outcome('%s:%s:found-without-timeout' % (what, kind))
+    else:
+        check_messages(part, case, tape, pos, t, r.out, what)
     # contents
     if kind == 'D':
         want = payload(t, n)
@@ -341,6 +355,9 @@ def run_tape(part, fmt, tape, orders, case=None):
                 targets = [[t] for t in range(1, len(tape))]
             elif order == 'nameless':
                 targets = ['nameless']
+            elif order == 'wrap':
+                # a later file first, then an earlier one (it lies behind the head)
+                targets = [[t, u] for t in range(1, len(tape)) for u in range(t)]
             else:
                 raise CheckError('unknown order %r' % (order,))
             for tg in targets:
@@ -350,9 +367,9 @@ def run_tape(part, fmt, tape, orders, case=None):
                         nameless(s, part, case, tape)
                     else:
                         pos = 0
-                        for t in tg:
-                            what = 'in-order' if order == 'order' else 'skip-to'
-                            pos = read_file(s, part, case, tape, pos, t, what)
+                        for i, t in enumerate(tg):
+                            what = {'order': 'in-order', 'wrap': 'behind-head' if i else 'skip-to'}.get(order, 'skip-to')
+                            pos = read_file(s, part, case, tape, pos, t, what, wrapped=(order == 'wrap' and i > 0))
                             if pos is None:
                                 break
                 finally:
@@ -434,7 +451,7 @@ def legs(ctx):
     lvl = 0 if q else 2
     tapes = [((k1, n1), (k2, n2)) for k1 in KINDS for k2 in KINDS
              for n1 in boundary_sizes(k1, 1 if q else 2) for n2 in boundary_sizes(k2, lvl)]
-    out.append(Leg('pairs', [('CAS', ['order', 'skip'] + ([] if q else ['nameless']), ch)
+    out.append(Leg('pairs', [('CAS', ['order', 'skip', 'wrap'] + ([] if q else ['nameless']), ch)
                              for ch in chunked(tapes, 3 if q else 6)], work_tapes, exhaustive=True,
                    bound='2-file CAS tapes (%d): all 25 kind pairs x boundary sizes (stream length in '
                          '{0, U-1, U, U+1, 2U%s} for the first file, %s for the second; U = 255-byte record '
@@ -456,7 +473,7 @@ def legs(ctx):
     # a header written after a larger binary file (its length field is inherited from that file), then skipped
     tapes = [((k1, n1), (k2, n2), k3) for k1 in 'BPM' for n1 in sizes_near(k1, [UNIT[k1] + 1, 2 * UNIT[k1], 2 * UNIT[k1] + 1])
              for k2 in 'DA' for n2 in boundary_sizes(k2, 0) + [7] for k3 in (('D', 5), ('B', 40))]
-    out.append(Leg('after-binary', [('CAS', ['order', 'skip'], ch) for ch in chunked(tapes, 3)], work_tapes,
+    out.append(Leg('after-binary', [('CAS', ['order', 'skip', 'wrap'], ch) for ch in chunked(tapes, 3)], work_tapes,
                    exhaustive=True,
                    bound='3-file CAS tapes (%d): tokenised/protected/memory file of more than one block (stream length '
                          'U+1, 2U, 2U+1), then a data/ASCII file (0, 7, U bytes), then a data or program file; read in '
@@ -466,7 +483,7 @@ def legs(ctx):
     else:
         tapes = [((k1, n1), (k2, n2)) for k1 in KINDS for k2 in 'DB' for n1 in boundary_sizes(k1, 1)
                  for n2 in boundary_sizes(k2, 0)]
-    out.append(Leg('wav', [('WAV', ['order', 'skip'], ch) for ch in chunked(tapes, 2)], work_tapes,
+    out.append(Leg('wav', [('WAV', ['order', 'skip', 'wrap'], ch) for ch in chunked(tapes, 2)], work_tapes,
                    exhaustive=True,
                    bound='2-file WAV tapes (%d): %s' % (
                        len(tapes), 'first file of each kind with stream length {0, U}, fixed second file' if q else
